@@ -3,7 +3,8 @@
 From Coq Require Import NArith List Bool.
 From Falcon Require Import Base.Res Graph.NMap Graph.NMapFacts Graph.Graph Graph.GraphInv Graph.Algo Graph.Spec
   Graph.Oracle Graph.OracleProofs Graph.ReachProofs Graph.C11Check Graph.SemiNca3 Graph.Small3 Graph.DomTheory
-  Graph.OrderProofs Graph.LoopProofs Graph.BackEdges Graph.PreOrderProofs Graph.DomTreeProofs.
+  Graph.OrderProofs Graph.LoopProofs Graph.BackEdges Graph.PreOrderProofs Graph.DomTreeProofs Graph.ClosureTotal Graph.IdomExists Graph.PreOrderDfs
+  Graph.DomModel Graph.FrontierModel Graph.Unreachable.
 Import ListNotations.
 Local Open Scope N_scope.
 
@@ -207,3 +208,80 @@ Theorem looptree_check_sound : forall vs es r ls tv te,
   forall outer inner, In (outer, inner) te <-> loop_nested es r outer inner.
 Proof. exact LoopProofs.looptree_ok_sound. Qed.
 Print Assumptions looptree_check_sound.
+
+(* ================================================================== round 2 *)
+
+(* [U] the closure computations of the validators always terminate with a closed set: the hypothesis
+   `tab_ok vs es r = true` of the validator theorems above is always satisfied *)
+Theorem tab_ok_always : forall vs es r, tab_ok vs es r = true.
+Proof. exact ClosureTotal.tab_ok_always. Qed.
+Print Assumptions tab_ok_always.
+
+(* [U] the dominator tree exists: every reachable vertex other than the root has exactly one immediate
+   dominator, so the conclusion of idom_check_sound is never vacuous *)
+Theorem idom_exists : forall es r v, reach es r v -> v <> r -> exists i, idom es r i v.
+Proof. exact IdomExists.idom_exists. Qed.
+Print Assumptions idom_exists.
+Theorem idom_unique : forall es r i j v, idom es r i v -> idom es r j v -> i = j.
+Proof. exact IdomExists.idom_unique. Qed.
+Print Assumptions idom_unique.
+
+(* [U] MODEL functions, given that the idom map of the model passes idom_check (= is the idom relation):
+   compute_dominator_tree, compute_dominators, compute_back_edges, compute_dominance_frontiers return Ok and
+   are exactly the textbook objects *)
+Theorem dominator_tree_correct : forall (V E : Type) (HV : Vertex V) (HE : Edge E) (g : graph V E) r m,
+  compute_immediate_dominators g r = Ok m -> idom_check (vertex_indices g) (edge_keys g) r m = true ->
+  exists t, compute_dominator_tree g r = Ok t /\ GraphInv.graph_inv t /\
+    (forall v, has_vertex t v = true <-> reach (edge_keys g) r v) /\
+    (forall d v, has_edge t d v = true <-> idom (edge_keys g) r d v).
+Proof. intros V E HV HE g r m. exact (DomModel.dominator_tree_correct g r m). Qed.
+Print Assumptions dominator_tree_correct.
+
+Theorem compute_dominators_correct : forall (V E : Type) (HV : Vertex V) (HE : Edge E) (g : graph V E) r m,
+  has_vertex g r = true ->
+  compute_immediate_dominators g r = Ok m -> idom_check (vertex_indices g) (edge_keys g) r m = true ->
+  exists doms, compute_dominators g r = Ok doms /\ nsorted (map fst doms) /\
+    (forall v, In v (map fst doms) <-> reach (edge_keys g) r v) /\
+    (forall v D, In (v, D) doms -> forall d, In d D <-> dom (edge_keys g) r d v).
+Proof. intros V E HV HE g r m Hr. exact (DomModel.compute_dominators_correct g r Hr m). Qed.
+Print Assumptions compute_dominators_correct.
+
+Theorem compute_back_edges_correct : forall (V E : Type) (HV : Vertex V) (HE : Edge E) (g : graph V E) r m,
+  GraphInv.graph_inv g -> has_vertex g r = true ->
+  compute_immediate_dominators g r = Ok m -> idom_check (vertex_indices g) (edge_keys g) r m = true ->
+  exists be, compute_back_edges g r = Ok be /\ forall a b, In (a, b) be <-> back_edge (edge_keys g) r a b.
+Proof. intros V E HV HE g r m Hgi Hr. exact (DomModel.compute_back_edges_correct g Hgi r Hr m). Qed.
+Print Assumptions compute_back_edges_correct.
+
+Theorem compute_dominance_frontiers_correct : forall (V E : Type) (HV : Vertex V) (HE : Edge E) (g : graph V E) r m,
+  GraphInv.graph_inv g -> has_vertex g r = true ->
+  compute_immediate_dominators g r = Ok m -> idom_check (vertex_indices g) (edge_keys g) r m = true ->
+  exists df, compute_dominance_frontiers g r = Ok df /\
+    (forall x, nm_mem x df = has_vertex g x) /\
+    (forall x F, nm_get x df = Some F -> forall y, In y F <-> in_DF (edge_keys g) r x y).
+Proof. intros V E HV HE g r m Hgi Hr. exact (FrontierModel.compute_dominance_frontiers_correct g Hgi r Hr m). Qed.
+Print Assumptions compute_dominance_frontiers_correct.
+
+(* [U] unreachable vertices are excluded rather than causing a failure (model functions) *)
+Theorem unreachable_excluded : forall (V E : Type) (HV : Vertex V) (HE : Edge E) (g : graph V E) r m,
+  GraphInv.graph_inv g -> has_vertex g r = true ->
+  compute_immediate_dominators g r = Ok m -> idom_check (vertex_indices g) (edge_keys g) r m = true ->
+  (exists s, reachable_vertices g r = Ok s /\ forall v, In v s -> reach (edge_keys g) r v) /\
+  (exists l, compute_pre_order g r = Ok l /\ forall v, In v l -> reach (edge_keys g) r v) /\
+  (forall v d, In (v, d) m -> reach (edge_keys g) r v /\ reach (edge_keys g) r d) /\
+  (exists t, compute_dominator_tree g r = Ok t /\ forall v, has_vertex t v = true -> reach (edge_keys g) r v) /\
+  (exists doms, compute_dominators g r = Ok doms /\
+                forall v D, In (v, D) doms -> reach (edge_keys g) r v /\ forall d, In d D -> reach (edge_keys g) r d) /\
+  (exists be, compute_back_edges g r = Ok be /\
+              forall a b, In (a, b) be -> reach (edge_keys g) r a /\ reach (edge_keys g) r b) /\
+  (exists df, compute_dominance_frontiers g r = Ok df /\
+              forall x F, nm_get x df = Some F -> forall y, In y F -> reach (edge_keys g) r x /\ reach (edge_keys g) r y).
+Proof. intros V E HV HE g r m Hgi Hr. exact (Unreachable.unreachable_excluded g Hgi r Hr m). Qed.
+Print Assumptions unreachable_excluded.
+
+(* [U] the pre-order is a search order: every listed vertex other than the root comes after one of its
+   predecessors (PFr is stated on the reversed list) *)
+Theorem pre_order_search_order : forall (V E : Type) (HV : Vertex V) (HE : Edge E) (g : graph V E) r l,
+  compute_pre_order g r = Ok l -> exists o, l = rev o /\ PFr g r o.
+Proof. intros V E HV HE g r l. exact (PreOrderDfs.compute_pre_order_parent g r l). Qed.
+Print Assumptions pre_order_search_order.
